@@ -76,6 +76,9 @@ Sem/InvModel.vos Sem/InvModel.vok Sem/InvModel.required_vos: Sem/InvModel.v Core
 Sem/ImportModel.vo Sem/ImportModel.glob Sem/ImportModel.v.beautified Sem/ImportModel.required_vo: Sem/ImportModel.v Core/Base.vo Sem/Show.vo Gen/HasPatcher.vo
 Sem/ImportModel.vio: Sem/ImportModel.v Core/Base.vio Sem/Show.vio Gen/HasPatcher.vio
 Sem/ImportModel.vos Sem/ImportModel.vok Sem/ImportModel.required_vos: Sem/ImportModel.v Core/Base.vos Sem/Show.vos Gen/HasPatcher.vos
+Sem/DecorateModel.vo Sem/DecorateModel.glob Sem/DecorateModel.v.beautified Sem/DecorateModel.required_vo: Sem/DecorateModel.v Gen/Transformer.vo
+Sem/DecorateModel.vio: Sem/DecorateModel.v Gen/Transformer.vio
+Sem/DecorateModel.vos Sem/DecorateModel.vok Sem/DecorateModel.required_vos: Sem/DecorateModel.v Gen/Transformer.vos
 Sem/ScnSwitch.vo Sem/ScnSwitch.glob Sem/ScnSwitch.v.beautified Sem/ScnSwitch.required_vo: Sem/ScnSwitch.v Core/Base.vo Core/Prog.vo Sem/Interp.vo Sem/Show.vo Gen/State.vo
 Sem/ScnSwitch.vio: Sem/ScnSwitch.v Core/Base.vio Core/Prog.vio Sem/Interp.vio Sem/Show.vio Gen/State.vio
 Sem/ScnSwitch.vos Sem/ScnSwitch.vok Sem/ScnSwitch.required_vos: Sem/ScnSwitch.v Core/Base.vos Core/Prog.vos Sem/Interp.vos Sem/Show.vos Gen/State.vos
